@@ -243,6 +243,26 @@ def calls_part(run, scratch, cfg):
                 if best > score + TOL * max(1.0, abs(score)):
                     run.fail(f"calls:{mode}:after={hist_kinds}:not-optimal-for-current-model", case, what="the returned alignment is not optimal for the model as it is at the time of the call")
                     break
+                # the numeric TYPE of the scores is a representation of the same model: numpy.int8 / float32 / Python float
+                # values equal to the integers above must give the same alignment and the same score
+                typed_bad = False
+                for tname, conv in (("int8", np.int8), ("float32", np.float32), ("float", float)):
+                    S_t = {k2: conv(v2) for k2, v2 in S.items()}
+                    try:
+                        aln_t, score_t = fn(s1, s2, S_t, d, e, return_score=True)
+                        rows_t = aln_t.to_dict()
+                        got_t = (rows_t["s1"], rows_t["s2"])
+                    except Exception as ex:
+                        run.fail(f"calls:{mode}:score-type={tname}:raised", dict(case, exception=repr(ex)), what="aligner raised for a score table whose values have another numeric type")
+                        typed_bad = True
+                        break
+                    ncalls += 1
+                    if got_t != got or abs(score_t - score) > TOL * max(1.0, abs(score)):
+                        run.fail(f"calls:{mode}:score-type={tname}:differs-from-python-integers", dict(case, returned_typed=got_t, score_typed=score_t), what="the same scores given with another numeric type give another alignment or score")
+                        typed_bad = True
+                        break
+                if typed_bad:
+                    break
                 # the same call through the apps (smith_waterman for local, align_to_ref for global), which take the model
                 # as constructor arguments: the penalties and scores GIVEN are the model, whatever their values
                 zero = "zero-penalty" if 0 in (d, e) else "positive-penalties"
